@@ -17,6 +17,15 @@
                                  order: conn.keys := COPY of s.keys ; keyCryptAndUpdate(decrypt with
                                  the old key, regenerate on FlagCrypt) ; process ; reply.KeyCrypt(conn.keys)
 
+   c2/session.go pick()          case order: peek / queue ; server in a channel waits ; CLIENT IN A CHANNEL
+                                 waits for the queue (pickWait puts a plain keep-alive there) ; i => nil ;
+                                 only then keyNextSync  -> pick_model: no re-key is ever drawn in a channel
+   c2/channel.go conn.start      conn.keys := the Session's keys when the channel starts; the server
+                                 side of the channel (channelRead/channelWrite) uses ONLY that copy
+   c2/session.go channelWrite/channelRead   the client side uses s.keys, keyCheckSync right after each write
+                                 `chan_rekey = true` is the code BEFORE fix 28f32da (the idle tick of a
+                                 client in a channel drew re-keys)
+
    Bytes are Z.  ECDH is abstract: pub : priv -> point, dh : priv -> point -> list Z is
    x.Bytes() of the shared point, i.e. a big-endian integer WITHOUT leading zeros, of any length. *)
 From XMT Require Import Base.Prelude.
@@ -62,6 +71,30 @@ Definition deliver (p : list Z) (log : list (list Z)) : list (list Z) :=
 
 Definition is_some {A} (o : option A) : bool := match o with Some _ => true | None => false end.
 
+(* ---- Session.pick: which Packet is sent when nothing forces one --------------------- *)
+Inductive picked :=
+| PQueued      (* s.peek or the head of s.send *)
+| PWait        (* server Session in a channel: blocks on wake / send (nil when woken) *)
+| PKeepAlive   (* client in a channel: blocks on send; pickWait supplies a plain empty Packet *)
+| PNil         (* i = true: nothing *)
+| PDraw        (* client, no channel: keyNextSync may draw a re-key announcement, else an empty Packet *)
+| PNop.        (* server, no channel: keyNextSync refuses (not a client): an empty Packet *)
+Definition pick_model (queued is_client in_channel i : bool) : picked :=
+  if queued then PQueued
+  else if negb is_client && in_channel then PWait
+  else if negb i && is_client && in_channel then PKeepAlive
+  else if i then PNil
+  else if is_client then PDraw else PNop.
+(* may the idle tick of a client draw a re-key? *)
+Definition tick_draws (in_channel : bool) : bool :=
+  match pick_model false true in_channel false with PDraw => true | _ => false end.
+(* what the harness can observe of pick() by calling it repeatedly in a fixed situation:
+   0 the queued Packet, 1 nil, 2 a re-key announcement shows up, 3 only empty Packets *)
+Definition pick_obs (queued is_client in_channel i : bool) : Z :=
+  match pick_model queued is_client in_channel i with
+  | PQueued => 0 | PWait => 1 | PNil => 1 | PDraw => 2 | PKeepAlive => 3 | PNop => 3
+  end.
+
 (* ---- the two ends ----------------------------------------------------------- *)
 Section Machine.
   Variables priv point : Type.
@@ -69,6 +102,8 @@ Section Machine.
   Variable dh : priv -> point -> list Z.
   (* false: the code as it is now; true: next() as it was before the fix (kept for the regression witness) *)
   Variable merge : bool.
+  (* false: the code as it is now; true: pickWait before fix 28f32da (re-keys drawn inside a channel) *)
+  Variable chan_rekey : bool.
 
   (* client Session: keys.Private, keys.Public (its own public until the server's arrives),
      keys.share, keysNext (only its private half is ever used) *)
@@ -91,7 +126,8 @@ Section Machine.
 
   Record st := mkSt { cl : client; sv : server; upw : option up; dnw : option down;
                       waiting : bool;                      (* the client is inside session() *)
-                      c_seen : list (list Z); s_seen : list (list Z) }.  (* payloads the handlers saw, newest first *)
+                      c_seen : list (list Z); s_seen : list (list Z);     (* payloads the handlers saw, newest first *)
+                      chn : option (list Z) }.   (* a channel is open: conn.keys, the server connection's key copy *)
 
   Inductive event :=
   | Hello (k : priv)           (* connect(): new Session, keySessionGenerate, hello written in clear *)
@@ -106,7 +142,12 @@ Section Machine.
   | WriteFail                  (* writePacket failed: keyCheckRevert *)
   | ReplyLost                  (* readPacket failed: session() returns, nothing else happens *)
   | Forget (sk : priv)         (* the server loses its session table (restart with key sk / expiry) *)
-  | Reregister (k : priv).     (* the client reads SvRegister: keyCheckSync, keySessionGenerate, hello queued and written next *)
+  | Reregister (k : priv)      (* the client reads SvRegister: keyCheckSync, keySessionGenerate, hello queued and written next *)
+  | ChanStart                  (* the exchange just completed carried FlagChannel: conn.start (conn.keys := Session keys), both ends enter the channel loops *)
+  | ChanUp (p : list Z)        (* client channelWrite (KeyCrypt s.keys; write; keyCheckSync) -> server channelRead (KeyCrypt conn.keys; notify) *)
+  | ChanDown (q : list Z)      (* server channelWrite (KeyCrypt conn.keys) -> client channelRead (KeyCrypt s.keys) *)
+  | ChanTick (k : priv)        (* the client had nothing to send for one sleep period inside the channel: pick() *)
+  | ChanEnd.                   (* the channel closes *)
 
   Definition key_check_sync (c : client) : client :=
     match c_next c with
@@ -122,7 +163,7 @@ Section Machine.
     else mkC (c_priv c) pb (fill_shared (c_share c) (dh (c_priv c) pb)) (c_next c).
 
   Definition send (m : up) (c : client) (s : st) : st :=
-    mkSt c (sv s) (Some m) None true (c_seen s) (s_seen s).
+    mkSt c (sv s) (Some m) None true (c_seen s) (s_seen s) (chn s).
 
   (* Listener.talk + handle on the Packet m *)
   Definition srv_handle (q : list Z) (m : up) (s : st) : st :=
@@ -144,31 +185,54 @@ Section Machine.
                     if zlist_eqb under (s_share S) then deliver (xor_op body (s_share S)) (s_seen s) else s_seen s
                   | _ => s_seen s
                   end in
-      mkSt (cl s) S' None (Some (DData (xor_op q copy))) (waiting s) (c_seen s) seen
+      mkSt (cl s) S' None (Some (DData (xor_op q copy))) (waiting s) (c_seen s) seen (chn s)
     else
       match m with
       | UHello pb =>     (* new Session (zero share), keyListenerInit, SvComplete with the server public, not encrypted *)
         mkSt (cl s) (mkS true (s_priv S) (fill_shared zero_share (dh (s_priv S) pb))) None
-             (Some (DComplete (pub (s_priv S)))) (waiting s) (c_seen s) (s_seen s)
-      | _ => mkSt (cl s) S None (Some DRegister) (waiting s) (c_seen s) (s_seen s)
+             (Some (DComplete (pub (s_priv S)))) (waiting s) (c_seen s) (s_seen s) (chn s)
+      | _ => mkSt (cl s) S None (Some DRegister) (waiting s) (c_seen s) (s_seen s) (chn s)
       end.
+
+  (* the client is inside session(): an exchange is in progress or a channel is open *)
+  Definition busy (s : st) : bool := waiting s || is_some (chn s).
+
+  (* one Packet up the channel: the client encrypts with s.keys and runs keyCheckSync after the write,
+     the server decrypts with the connection's copy ck *)
+  Definition chan_up (p ck : list Z) (s : st) : st :=
+    let c := cl s in
+    mkSt (key_check_sync c) (sv s) (upw s) (dnw s) (waiting s) (c_seen s)
+         (deliver (xor_op (xor_op p (c_share c)) ck) (s_seen s)) (chn s).
+  (* a re-key announcement up the channel (only the code before 28f32da could send one): the client
+     swaps at once; the server decrypts with ck, notify() regenerates the SESSION key, ck stays *)
+  Definition chan_rekey_up (k : priv) (ck : list Z) (s : st) : st :=
+    let c := cl s in
+    let S := sv s in
+    match c_next c with
+    | Some _ => chan_up [] ck s
+    | None =>
+      let S' := if zlist_eqb (c_share c) ck
+                then mkS (s_reg S) (s_priv S) (fill_shared (s_share S) (dh (s_priv S) (pub k))) else S in
+      mkSt (key_check_sync (mkC (c_priv c) (c_pub c) (c_share c) (Some k))) S' (upw s) (dnw s) (waiting s)
+           (c_seen s) (s_seen s) (chn s)
+    end.
 
   Definition step (e : event) (s : st) : st :=
     match e with
     | Hello k =>
-      if waiting s || s_reg (sv s) then s
+      if busy s || s_reg (sv s) then s
       else send (UHello (pub k)) (mkC k (pub k) zero_share None) s
     | RekeySend k =>
-      if waiting s then s else
+      if busy s then s else
       let c := cl s in
       match c_next c with
       | Some _ => send (UData []) c s                 (* keyNextSync refuses while keysNext is pending *)
       | None => send (URekey (pub k) (c_share c)) (mkC (c_priv c) (c_pub c) (c_share c) (Some k)) s
       end
     | DataSend p =>
-      if waiting s then s else send (UData (xor_op p (c_share (cl s)))) (cl s) s
+      if busy s then s else send (UData (xor_op p (c_share (cl s)))) (cl s) s
     | BatchSend k p =>
-      if waiting s then s else
+      if busy s then s else
       let c := cl s in
       match c_next c with
       | Some _ => send (UData (xor_op p (c_share c))) c s    (* no announcement was drawn: p is an ordinary Packet *)
@@ -179,10 +243,10 @@ Section Machine.
       end
     | WriteFail =>
       if waiting s && is_some (upw s)
-      then mkSt (key_check_revert (cl s)) (sv s) None None false (c_seen s) (s_seen s)
+      then mkSt (key_check_revert (cl s)) (sv s) None None false (c_seen s) (s_seen s) (chn s)
       else s
     | ReplyLost =>
-      if waiting s then mkSt (cl s) (sv s) None None false (c_seen s) (s_seen s) else s
+      if waiting s then mkSt (cl s) (sv s) None None false (c_seen s) (s_seen s) (chn s) else s
     | RekeyRecv q =>
       match upw s with Some m => srv_handle q m s | None => s end
     | ReplyRecv =>
@@ -190,13 +254,13 @@ Section Machine.
       | Some (DData body) =>
         let c := cl s in
         mkSt (key_check_sync c) (sv s) (upw s) None false
-             (deliver (xor_op body (c_share c)) (c_seen s)) (s_seen s)
+             (deliver (xor_op body (c_share c)) (c_seen s)) (s_seen s) (chn s)
       | _ => s
       end
     | HelloReply =>
       match dnw s with
       | Some (DComplete pb) =>
-        mkSt (key_session_sync pb (key_check_sync (cl s))) (sv s) (upw s) None false (c_seen s) (s_seen s)
+        mkSt (key_session_sync pb (key_check_sync (cl s))) (sv s) (upw s) None false (c_seen s) (s_seen s) (chn s)
       | _ => s
       end
     | Reregister k =>
@@ -205,15 +269,34 @@ Section Machine.
         send (UHello (pub k)) (key_session_generate k (key_check_sync (cl s))) s
       | _ => s
       end
+    | ChanStart =>
+      if busy s || negb (s_reg (sv s)) then s
+      else mkSt (cl s) (sv s) (upw s) (dnw s) (waiting s) (c_seen s) (s_seen s) (Some (s_share (sv s)))
+    | ChanUp p =>
+      match chn s with Some ck => chan_up p ck s | None => s end
+    | ChanDown q =>
+      match chn s with
+      | Some ck =>
+        mkSt (cl s) (sv s) (upw s) (dnw s) (waiting s)
+             (deliver (xor_op (xor_op q ck) (c_share (cl s))) (c_seen s)) (s_seen s) (chn s)
+      | None => s
+      end
+    | ChanTick k =>
+      match chn s with
+      | Some ck => if chan_rekey || tick_draws true then chan_rekey_up k ck s else chan_up [] ck s
+      | None => s
+      end
+    | ChanEnd =>
+      mkSt (cl s) (sv s) (upw s) (dnw s) (waiting s) (c_seen s) (s_seen s) None
     | Forget sk =>
-      mkSt (cl s) (mkS false sk (s_share (sv s))) (upw s) (dnw s) (waiting s) (c_seen s) (s_seen s)
+      mkSt (cl s) (mkS false sk (s_share (sv s))) (upw s) (dnw s) (waiting s) (c_seen s) (s_seen s) None   (* the connections die with the server *)
     end.
 
   Definition run (h : list event) (s : st) : st := fold_left (fun s e => step e s) h s.
 
   (* nothing registered, nobody connected; k0 is a placeholder for the not yet generated client pair *)
   Definition init (k0 s0 : priv) : st :=
-    mkSt (mkC k0 (pub k0) zero_share None) (mkS false s0 zero_share) None None false [] [].
+    mkSt (mkC k0 (pub k0) zero_share None) (mkS false s0 zero_share) None None false [] [] None.
 
   (* ---- which events the agreement theorem has to exclude ------------------------------- *)
   (* a lost reply does harm only while a key announcement is unacknowledged: a re-key is pending
@@ -224,6 +307,7 @@ Section Machine.
     match e with
     | ReplyLost => negb (waiting s && harmful_loss s)
     | BatchSend _ _ => negb merge
+    | ChanTick _ => negb (chan_rekey || tick_draws true)
     | _ => true
     end.
   (* every event of h is admissible in the state in which it happens *)
@@ -234,15 +318,22 @@ Section Machine.
     end.
   (* the coarser, state-independent condition: no reply is lost at all *)
   Definition lossless_event (e : event) : bool :=
-    match e with ReplyLost => false | BatchSend _ _ => negb merge | _ => true end.
+    match e with
+    | ReplyLost => false
+    | BatchSend _ _ => negb merge
+    | ChanTick _ => negb (chan_rekey || tick_draws true)
+    | _ => true
+    end.
   Definition lossless (h : list event) : bool := forallb lossless_event h.
 
   Definition agree (s : st) : Prop := c_share (cl s) = s_share (sv s).
   (* the two ends agree and nothing is in flight: the client is between two exchanges, the server
-     knows it, no re-key is pending, the shares are equal, the client holds the server's public key *)
+     knows it, no re-key is pending, the shares are equal, the client holds the server's public key,
+     no channel is open *)
   Definition settled (s : st) : Prop :=
     waiting s = false /\ upw s = None /\ dnw s = None /\ s_reg (sv s) = true /\
-    c_next (cl s) = None /\ c_share (cl s) = s_share (sv s) /\ c_pub (cl s) = pub (s_priv (sv s)).
+    c_next (cl s) = None /\ c_share (cl s) = s_share (sv s) /\ c_pub (cl s) = pub (s_priv (sv s)) /\
+    chn s = None.
 End Machine.
 
 Arguments mkC {priv point}.
@@ -269,6 +360,7 @@ Arguments dnw {priv point}.
 Arguments waiting {priv point}.
 Arguments c_seen {priv point}.
 Arguments s_seen {priv point}.
+Arguments chn {priv point}.
 Arguments Hello {priv}.
 Arguments HelloReply {priv}.
 Arguments RekeySend {priv}.
@@ -280,6 +372,11 @@ Arguments WriteFail {priv}.
 Arguments ReplyLost {priv}.
 Arguments Forget {priv}.
 Arguments Reregister {priv}.
+Arguments ChanStart {priv}.
+Arguments ChanUp {priv}.
+Arguments ChanDown {priv}.
+Arguments ChanTick {priv}.
+Arguments ChanEnd {priv}.
 Arguments step {priv point}.
 Arguments run {priv point}.
 Arguments init {priv point}.
@@ -289,6 +386,9 @@ Arguments key_check_revert {priv point}.
 Arguments key_session_generate {priv point}.
 Arguments key_session_sync {priv point}.
 Arguments send {priv point}.
+Arguments busy {priv point}.
+Arguments chan_up {priv point}.
+Arguments chan_rekey_up {priv point}.
 Arguments agree {priv point}.
 Arguments settled {priv point}.
 Arguments lossless {priv}.
@@ -323,24 +423,26 @@ Definition obs_ok (s : st Z Z) (o : obs) : bool :=
   (negb (o_sr o) || zlist_eqb (s_share (sv s)) (o_ss o)) &&
   list_eqb zlist_eqb (rev (c_seen s)) (o_cg o) && list_eqb zlist_eqb (rev (s_seen s)) (o_sg o).
 
-Definition clear_seen (s : st Z Z) : st Z Z := mkSt (cl s) (sv s) (upw s) (dnw s) (waiting s) [] [].
+Definition clear_seen (s : st Z Z) : st Z Z := mkSt (cl s) (sv s) (upw s) (dnw s) (waiting s) [] [] (chn s).
 
 Fixpoint run_rounds (tab : list (Z * Z * list Z)) (s : st Z Z) (rs : list (list (event Z) * obs)) : bool :=
   match rs with
   | [] => true
   | (evs, o) :: rest =>
-    let s1 := run (fun x => x) (tab_dh tab) false evs (clear_seen s) in
+    let s1 := run (fun x => x) (tab_dh tab) false false evs (clear_seen s) in
     obs_ok s1 o && run_rounds tab s1 rest
   end.
 
 Inductive case :=
 | CXor (buf key out : list Z)                 (* subtle.XorOp / Chunk.KeyCrypt on buf with key *)
 | CFill (old bytes out : list Z)              (* fillShared over the previous share `old`, ECDH bytes from crypto/ecdh *)
-| CHist (tab : list (Z * Z * list Z)) (k0 s0 : Z) (rounds : list (list (event Z) * obs)).
+| CHist (tab : list (Z * Z * list Z)) (k0 s0 : Z) (rounds : list (list (event Z) * obs))
+| CPick (queued is_client in_channel i : bool) (observed : Z).   (* the real pick() called repeatedly in this situation *)
 
 Definition check (c : case) : bool :=
   match c with
   | CXor buf key out => zlist_eqb (xor_op buf key) out && zlist_eqb (xor_spec buf key) out
   | CFill old bytes out => zlist_eqb (fill_shared old bytes) out
   | CHist tab k0 s0 rounds => run_rounds tab (init (fun x => x) k0 s0) rounds
+  | CPick queued is_client in_channel i observed => pick_obs queued is_client in_channel i =? observed
   end.
